@@ -400,7 +400,8 @@ def r4_scan_equals_load(ctx, res):
     res.inst(key, lmf.loc(f.node), 'attribute values pass through an XML entity decoder')
     if not _has_unescape(ctx, f):
         res.find(key, lmf.loc(f.node), 'scan_lexicons returns attribute values as raw bytes decoded to text without expanding XML entity '
-                                       'references (&amp; &quot; &#9; ...): ids, versions and labels differ from what load() reports, and '
+                                       'and numeric character references (&amp; &quot; &#9; &#233; - html.unescape does, saxutils.unescape '
+                                       'knows only the predefined entities): ids, versions and labels differ from what load() reports, and '
                                        '_precheck looks up the wrong specifier')
     # (b2) markup inside XML comments is not markup: the scan must skip comments
     key = 'scan:comments-skipped'
@@ -437,11 +438,33 @@ def r4_scan_equals_load(ctx, res):
         res.find(key, al.module.loc(al.node), '_add_lmf no longer decides what to skip from scan_lexicons + _precheck')
 
 
+def _decodes_char_refs(f, call):
+    """does this `...unescape(...)` call expand numeric character references (&#233; &#x9;) as the XML parser does?  html.unescape
+    does; xml.sax.saxutils.unescape only knows &amp; &lt; &gt; and the entities it is given"""
+    fn = call.func
+    base = fn.value.id if isinstance(fn, ast.Attribute) and isinstance(fn.value, ast.Name) else None
+    name = fn.attr if isinstance(fn, ast.Attribute) else (fn.id if isinstance(fn, ast.Name) else '')
+    imp = f.module.imports.get(base or name)
+    origin = None
+    if imp:
+        origin = imp[1] if imp[0] in ('mod', 'obj', 'ext', 'extobj') else None
+        if len(imp) > 1:
+            origin = imp[1]
+    if origin is None:
+        # fall back to the import statements of the module
+        for st in f.module.tree.body:
+            if isinstance(st, ast.ImportFrom) and any((a.asname or a.name) == (base or name) for a in st.names):
+                origin = st.module
+            elif isinstance(st, ast.Import) and any((a.asname or a.name).split('.')[0] == (base or name) for a in st.names):
+                origin = base
+    return origin is not None and origin.split('.')[0] == 'html'
+
+
 def _has_unescape(ctx, f, depth=0):
     for n in ast.walk(f.node):
         if isinstance(n, ast.Call):
             nm = norm(n.func).split('.')[-1]
-            if 'unescape' in nm:
+            if 'unescape' in nm and _decodes_char_refs(f, n):
                 return True
     # ... or in a module-level helper the function calls (the decoder may live outside the function)
     if depth < 2:
